@@ -64,6 +64,25 @@ def run(pid, tier, replay=None):
         if files:
             with open(files[-1]) as fh:
                 ck.sample(json.loads(fh.readline()))
+    # long random histories on one live string (lengths to several hundred bytes, all byte classes incl. stray continuation
+    # bytes and code points of every length): each step judged by StrTrace on its own
+    nh, no = (12, 800) if tier == "quick" else (150, 2000)
+    rr = vlib.run_harness([exe, "random", str(ck.seed), str(nh), str(no), sc.path("rnd"), "14"], timeout=1800)
+    mrr = re.search(r"^SUMMARY (\{.*\})$", rr.stdout or "", re.M)
+    if rr.returncode != 0 or not mrr:
+        if rr.returncode in (97, 98, 99, -6, -11) or "Sanitizer" in (rr.stderr or ""):
+            ck.violation("crash:str:random-history", {"what": "sanitizer abort during a long random string history", "stderr": (rr.stderr or "")[-1500:], "stdout": (rr.stdout or "")[-600:]})
+        else:
+            raise Broken("random string history failed rc=%s: %s" % (rr.returncode, (rr.stderr or "")[-800:]))
+    else:
+        rfiles = vlib.drop_partial_lines(sorted(glob.glob(sc.path("rnd-*.ndjson"))))
+        rn, rbad = vlib.validate_collect(os.path.join(SPECDIR, "StrTrace.tla"), os.path.join(SPECDIR, "StrTrace.cfg"), rfiles, sc)
+        for f, idx, ev in rbad:
+            ck.violation("trace:str:%s:random-history" % ev.get("op"), {"what": "TLC rejected a step of a long random string history", "op": ev.get("op"), "a1": ev.get("a1"), "blk": ev.get("blk"),
+                                                                          "pre_len": len(ev.get("pre", {}).get("s", [])), "ret": ev.get("ret"), "post": str(ev.get("post"))[:500]})
+        ck.cov["traces_validated_against_impl"] += rn
+        ck.cov["evaluations"] += rn + len(rbad)
+        ck.part("random_histories", histories=nh, steps_each=no, events_accepted=rn)
     ck.part("coverage_by_operation", **{OPS[i]: n for i, n in enumerate(opc) if 0 < i < len(OPS)})
     missing = [OPS[i] for i in range(1, len(OPS)) if opc[i] == 0]
     if missing:
